@@ -398,6 +398,13 @@ class Interp:
                 return Opaque(d)
             raise Unsupported("path %s" % d)
         if k in ("addr",):
+            if getattr(self, "_ref_mode", 0) and e.get("mut"):
+                # `&mut place.field` evaluated for a caller that assigns through the returned reference (`*pick(self) = v`)
+                inner_ = H.peel_ref(e["e"])
+                if inner_.get("k") == "field":
+                    b_ = self.ev(inner_["base"], env, depth)
+                    if isinstance(b_, dict):
+                        return FieldRef(b_, inner_["name"])
             return self.ev(e["e"], env, depth)
         if k == "unary":
             v = self.ev(e["e"], env, depth)
@@ -577,6 +584,16 @@ class Interp:
                     if not (0 <= i_ < len(base)):
                         raise Diverged("index %d out of range (len %d)" % (i_, len(base)))
                     base[i_] = v
+                    return ()
+            if l.get("k") in ("call", "mcall"):
+                # `*select_field(self) = v`: the callee returns a reference to a field
+                self._ref_mode = getattr(self, "_ref_mode", 0) + 1
+                try:
+                    r_ = self.ev(l, env, depth)
+                finally:
+                    self._ref_mode -= 1
+                if isinstance(r_, FieldRef):
+                    r_.set(v)
                     return ()
             raise Unsupported("assignment target")
         if k == "assignop":
@@ -901,6 +918,9 @@ class Interp:
                 return ""
             if ty == "bool":
                 return False
+            if re.match(r"^[A-Z][A-Za-z0-9]*$", ty) and self.free_opaque:
+                # `T::default()` of a type parameter: the default value of whatever type it stands for
+                return Opaque("Default::default")
         # core::mem::take / replace on a place: read it, then store the replacement (Default::default() of its type)
         if decl in ("core::mem::take", "core::mem::replace") and e.get("k") == "call":
             target = H.peel_ref(e["args"][0])
